@@ -6,7 +6,7 @@ Validity (the API contract): a zero-delay send carries a strictly smaller type t
 processed, so that it never sorts before it (larger type sorts first on equal timestamps)."""
 import argparse, json, os, random
 
-FAMILIES = ("mixed", "ties", "zerodelay", "fanout", "nonmono", "time0", "initdone", "sparse", "single", "chain", "pingpong", "relay")
+FAMILIES = ("mixed", "ties", "zerodelay", "fanout", "nonmono", "time0", "initdone", "sparse", "single", "chain", "pingpong", "relay", "burst")
 
 
 def gen_chain(seed, size):
@@ -50,6 +50,12 @@ def micro(name):
         return {"seed": 0, "family": "micro_m2", "nlps": 3, "K": 2, "T": 2, "P": 1, "split": 3, "need": [99] * 3, "cap": [99] * 3, "endmask": [1, 1],
                 "payloads": pay, "init": [[snd(0, 1, 2)], [], [snd(0, 2, 1), snd(0, 4, 1)]],
                 "trans": [[tr(1, [snd(2, 1, 1)]), tr(0, [snd(2, 0, 1)])], [tr(1, []), tr(1, [])]]}
+    if name == "d1":   # spec/TimeWarpMC_d1.tla: the LPs of m1 on two ranks
+        return dict(micro("m1"), family="micro_d1")
+    if name == "d2":   # spec/TimeWarpMC_d2.tla: 3 LPs over 2 ranks (rank 0: LP0, LP1 on two threads; rank 1: LP2)
+        return {"seed": 0, "family": "micro_d2", "nlps": 3, "K": 2, "T": 3, "P": 1, "split": 3, "need": [99] * 3, "cap": [99] * 3, "endmask": [1, 1],
+                "payloads": pay, "init": [[snd(0, 1, 2)], [], [snd(0, 3, 1)]],
+                "trans": [[tr(1, [snd(2, 1, 3)]), tr(1, [snd(2, 1, 1)]), tr(0, [])], [tr(1, []), tr(1, []), tr(1, [])]]}
     raise ValueError(name)
 
 
@@ -99,7 +105,50 @@ def gen_relay(seed, size):
             "endmask": [1] * K, "payloads": pay, "init": init, "trans": trans}
 
 
+def gen_burst(seed, size):
+    """several events with the same timestamp sent in one go to one LP of the other half (another rank in multi-rank runs) and
+    cancelled together by one rollback while the receiver is still busy with earlier work: several (early) anti-messages are
+    pending at one LP at once and are matched in an order that differs from the order they were stored in"""
+    r = random.Random(seed * 29 + 3)
+    half = r.choice([2, 2, 3])
+    n = 2 * half
+    B = r.choice([2, 3, 3, 4])
+    ticks = r.choice([25, 40]) if size == "small" else r.choice([60, 90])
+    D = ticks + r.choice([10, 20])
+    pay = [{"size": 0, "padd": 0, "bytes": []}, {"size": 8, "padd": 0, "bytes": [r.randrange(256) for _ in range(8)]},
+           {"size": 40, "padd": 0, "bytes": [r.randrange(256) for _ in range(40)]}]
+    def snd(off, delay, ty, pid=0, off2=None):
+        return {"drule": off, "drule2": off if off2 is None else off2, "delay": delay, "ty": ty, "pid": pid}
+    same = r.random() < 0.5
+    burst0 = [snd(half, D, 3, 0 if same else r.randrange(3)) for _ in range(B)]
+    burst1 = [snd(half, D + r.choice([0, 1]), 3, r.randrange(3)) for _ in range(r.choice([0, 1, 2]))]
+    def tr(ns, sends):
+        return {"draw": 0, "lib": 0, "mem": r.choice([-1, 0]), "out": [{"ns": ns, "sends": sends}]}
+    trans = []
+    for s_ in range(2):
+        trans.append([tr(1, []),                                   # type 1: cancel (the straggler for the sender)
+                      tr(s_, burst0 if s_ == 0 else burst1),       # type 2: burst
+                      tr(s_, []),                                  # type 3: absorb
+                      tr(s_, [snd(0, 1, 4)]),                      # type 4: tick (self, until the cap)
+                      tr(s_, [snd(1, 1, 1, 0, 1)])])               # type 5: trigger (LP n-1 -> LP 0)
+    init = [[] for _ in range(n)]
+    init[0] = [snd(0, 5, 2)]
+    init[half] = [snd(0, 1, 4)]
+    init[n - 1] = init[n - 1] + [snd(0, 1, 5)]
+    need = [0] * n
+    cap = [4] * n
+    need[0] = 2
+    cap[half] = ticks
+    need[half] = ticks + len(burst1) + (1 if half == n - 1 else 0)
+    need[n - 1] = max(need[n - 1], 1) if n - 1 != half else need[half]
+    cap[n - 1] = max(cap[n - 1], 2) if n - 1 != half else cap[half]
+    return {"seed": seed, "family": "burst", "nlps": n, "K": 2, "T": 5, "P": 3, "split": half, "need": need, "cap": cap,
+            "endmask": [1, 1], "payloads": pay, "init": init, "trans": trans}
+
+
 def gen(seed, family="mixed", size="small"):
+    if family == "burst":
+        return gen_burst(seed, size)
     if family == "relay":
         return gen_relay(seed, size)
     if family == "pingpong":
